@@ -78,6 +78,7 @@ def run(prog, tier, extra=None):
     R1 = res.rule("C01.gate", "a rejecting verdict reaches no accept outcome of its consumer", floor=18)
     R1b = res.rule("C01.combinator", "the result of all()/any() over a verdict closure gates its consumer", floor=2)
     R2 = res.rule("C01.who-may-insert", "only add_transaction (behind validate) and add_block_transactions_back insert into the pool", floor=3)
+    R4 = res.rule("C01.dup-scan", "the in-block double-spend scan checks and records each spent key individually", floor=1)
     R3 = res.rule("C01.signature", "Transaction::validate accept paths pass verify_signature(hash_for_signature, signature, from[0].public_key)", floor=1)
 
     units = prog.units
@@ -181,6 +182,58 @@ def run(prog, tier, extra=None):
             res.add(Finding(R2, "C01.who-may-insert|caller|%s" % e.src,
                             "%s calls Mempool::add_transaction without going through add_transaction_if_validates" % consumer_name(e.src),
                             cg.bodies[e.src].loc(e.bb)))
+
+    # R4: the in-block double-spend scan examines every spent key individually: each insertion into the per-block
+    # "spent in this block" map is either behind the not-contained edge of contains_key(<same key>) or has its
+    # previous-value result examined; bulk insertion (extend) cannot see a key repeated inside one transaction
+    sweep = prog.body(CORE + "consensus::block::Block::validate::{closure#0}::{closure#0}")
+    if sweep is None:
+        raise LookupError("transaction sweep closure of Block::validate not found")
+    sweep_bodies = [b for b in prog.all_bodies() if b.path == sweep.path or b.path.startswith(sweep.path + "::{closure")]
+    n_ins = 0
+    for b in sweep_bodies:
+        chb = Chaser(b)
+        for bb, t in b.calls():
+            n = call_name(t) or ""
+            last = n.rsplit("::", 1)[-1]
+            if not (n.startswith("std::collections::HashMap::") or n.startswith("ahash::AHashMap::") or n.startswith("std::collections::HashSet::")
+                    or n.startswith("ahash::AHashSet::") or n in ("std::iter::Extend::extend",)):
+                continue
+            if last not in ("insert", "extend", "append", "entry"):
+                continue
+            recv = chb.origin(t["args"][0])
+            # only maps captured from Block::validate (upvar of the sweep closure), i.e. state shared across transactions
+            if not any(x[0] == "param" and x[1] == 1 for x in walk(recv)):
+                continue
+            res.instance(R4)
+            n_ins += 1
+            key = "C01.dup-scan|%s|%s|%d" % (b.path, last, n_ins)
+            if last in ("extend", "append"):
+                res.add(Finding(R4, key, "the per-block spent-output map is filled in bulk (%s): an output listed twice inside one transaction is never compared with itself, "
+                                "so it is counted twice as input" % last, b.loc(bb)))
+                continue
+            if last == "insert":
+                k_expr = show(chb.origin(t["args"][1]))
+                guard = gate.bool_switch_edges(b, chb, lambda e: e[0] == "call" and e[1].rsplit("::", 1)[-1] == "contains_key"
+                                               and len(e[2]) == 2 and show(e[2][1]) == k_expr)
+                guarded = bool(guard["sites"]) and bb not in b.reachable(0, deleted_edges=guard["false"])
+                d = t["dest"]
+                used = False
+                if not d[1]:
+                    for blk in b.blocks:
+                        for st in blk["s"]:
+                            if st[0] == "=" and ("[%d, " % d[0]) in repr(st[2]):
+                                used = True
+                        tt = blk["t"]
+                        if any(a[0] in ("cp", "mv") and a[1][0] == d[0] for a in tt.get("args", [])) or \
+                                (tt["k"] == "switch" and tt["discr"][0] in ("cp", "mv") and tt["discr"][1][0] == d[0]):
+                            used = True
+                if guarded or used:
+                    res.sample({"rule": R4, "site": b.loc(bb), "verdict": "per key: " + ("behind contains_key(same key) == false" if guarded else "previous value examined")})
+                else:
+                    res.add(Finding(R4, key, "an output is recorded as spent in this block without checking whether the same key was already recorded", b.loc(bb)))
+    if n_ins == 0:
+        res.add(Finding(R4, "C01.dup-scan|none", "Block::validate's transaction sweep no longer records the outputs spent in this block: in-block double spends are not detected", sweep.loc(0)))
 
     # R3: signature check on every non-privileged accept path of Transaction::validate
     tv = prog.body(CORE + "consensus::transaction::Transaction::validate")
